@@ -5,6 +5,7 @@ Z1 cursor advanced every iteration, Z2 ascending 'zone' labels, Z3 validity mask
 reducer, Z4 finite zone ids, Z4b one index space for offsets/values/permutation, Z5 NaN for empty zones,
 ZS stride routine skeleton, ZT default statistic table.
 """
+import os
 from .. import zonalrules as Z
 
 
@@ -38,13 +39,16 @@ def check(prog, rep):
 
 
 def check_scatter(prog, rep, m):
-    """return_type='xarray.DataArray': cells of zone iz are sorted_indices[breaks[iz-1] or 0 : breaks[iz]] - the slice
-    bounds are evaluated (if/else or conditional expression alike) for the first and for a later zone"""
+    """return_type='xarray.DataArray': the cells written with row J of the per-zone results are
+    sorted_indices[breaks[J-1] (0 for the first zone) : breaks[J]].  Decided on the interpretation of the innermost loop
+    that stores through a slice of the permutation: either the slice bounds are evaluated for J = 0 and J = 3 (if/else,
+    conditional expression, a table of starts), or the lower bound is a cursor carried from one zone to the next (starts at
+    0, becomes the zone's break, the loop visits every zone in order)."""
     import ast
     from fractions import Fraction
     from ..kai import Arr, Interp, View
-    from ..kutil import CannotEvaluate, evaluate
-    from ..program import AnalysisIncomplete, norm
+    from ..kutil import CannotEvaluate, evaluate, value_cases
+    from ..program import AnalysisIncomplete, Func, norm
     from ..sym import App, Rat, Sym, subst, walk_atoms
     f = m.funcs.get('_stats_numpy')
     if f is None:
@@ -54,90 +58,211 @@ def check_scatter(prog, rep, m):
         if isinstance(n, ast.Assign) and isinstance(n.value, ast.Call) and norm(n.value.func) in ('np.full', 'numpy.full') and \
                 len(n.value.args) == 2 and norm(n.value.args[1]) in ('np.nan', 'numpy.nan'):
             init = True
-    loops = [n for n in f.own_nodes() if isinstance(n, ast.For) and any(
-        isinstance(x, ast.Assign) and norm(x.targets[0]) == 'zs' for x in ast.walk(n)) and not any(
-        isinstance(y, ast.For) and any(isinstance(x, ast.Assign) and norm(x.targets[0]) == 'zs' for x in ast.walk(y)) for y in n.body)]
-    ok = None
-    why = 'loop assigning the zone\'s cells not found'
+    # the permutation and the break vector: first and last component of what the sort-and-stride routine returns
+    P = B = None
+    for n in f.own_nodes():
+        if isinstance(n, ast.Assign) and isinstance(n.targets[0], ast.Tuple) and len(n.targets[0].elts) == 3 and isinstance(n.value, ast.Call) and \
+                all(isinstance(x, ast.Name) for x in n.targets[0].elts):
+            t = prog.resolve_callable(f, m, n.value.func)
+            if isinstance(t, Func) and t.name == '_sort_and_stride':
+                P, B = n.targets[0].elts[0].id, n.targets[0].elts[2].id
+    ok, why = None, 'loop storing through a slice of the permutation not found'
+    if P is None:
+        rep.add('Z-scatter', f, 'stats', 'raster output', f.node.lineno, None, 'the sort-and-stride call is not unpacked into (permutation, values, breaks)')
+        return
+
+    def slices_perm(n):
+        return any(isinstance(x, ast.Subscript) and isinstance(x.value, ast.Name) and x.value.id == P and isinstance(x.slice, ast.Slice)
+                   for x in ast.walk(n))
+    loops = [n for n in f.own_nodes() if isinstance(n, ast.For) and slices_perm(n) and
+             not any(isinstance(y, ast.For) and slices_perm(y) for b_ in n.body for y in ast.walk(b_))]
+    site = 'raster output: cells of a zone = %s[%s[J-1]:%s[J]]' % (P, B, B)
     if len(loops) == 1:
-        it = Interp(prog, f, {}, strict=False)
-        it.env.update({'sorted_indices': Arr('sorted_indices', 'param'), 'zone_breaks': Arr('zone_breaks', 'param'),
-                       'iz': Rat.sym('iz')})
-        it.k.arrays.update({'sorted_indices': it.env['sorted_indices'], 'zone_breaks': it.env['zone_breaks']})
-        # tables derived from the break vector before the loop (e.g. a vector of segment starts)
-        pre = [n for n in f.own_nodes() if isinstance(n, ast.Assign) and isinstance(n.targets[0], ast.Name) and
-               n.lineno < loops[0].lineno and 'zone_breaks' in norm(n.value) and norm(n.targets[0]) not in ('zone_breaks', 'sorted_indices')
-               and not any(isinstance(x, ast.Call) and norm(x.func).split('.')[-1] in ('_sort_and_stride', '_strides') for x in ast.walk(n.value))]
+        lp = loops[0]
+        from ..astutil import parent_map
+        pm = parent_map(f.node)
 
-        def run_pre(itp):
-            for n in pre:
-                try:
-                    itp.stmt(n)
-                except AnalysisIncomplete:
-                    pass
-        run_pre(it)
-        try:
-            for st in loops[0].body:
-                if isinstance(st, ast.Assign) and norm(st.targets[0]) == 'iz':
-                    continue
-                try:
-                    it.stmt(st)
-                except AnalysisIncomplete:
-                    if any(isinstance(x, ast.Assign) and norm(x.targets[0]) == 'zs' for x in ast.walk(st)):
-                        raise
-                if 'zs' in it.env:
-                    break
-            zs = it.env.get('zs')
-            res = []
-            views = []
-            if isinstance(zs, View) and not any(isinstance(a, App) and a.name == 'opaque' for b_ in zs.axes[0][1:] if isinstance(b_, Rat)
-                                                for a in walk_atoms(b_)):
-                views = [(None, zs)]
-            elif isinstance(zs, Rat):
-                # merged branches: ite(cond, view_a, view_b) is kept as opaque views - evaluate each branch instead
-                views = []
-            if not views:
-                # evaluate per concrete zone index by re-running with iz bound to a number
-                for izv in (0, 3):
-                    it2 = Interp(prog, f, {}, strict=False)
-                    it2.env.update({'sorted_indices': Arr('sorted_indices', 'param'), 'zone_breaks': Arr('zone_breaks', 'param'),
-                                    'iz': Rat.const(izv)})
-                    it2.k.arrays.update({'sorted_indices': it2.env['sorted_indices'], 'zone_breaks': it2.env['zone_breaks']})
-                    run_pre(it2)
-                    for st in loops[0].body:
-                        if isinstance(st, ast.Assign) and norm(st.targets[0]) == 'iz':
-                            continue
-                        try:
-                            it2.stmt(st)
-                        except AnalysisIncomplete:
-                            if any(isinstance(x, ast.Assign) and norm(x.targets[0]) == 'zs' for x in ast.walk(st)):
-                                raise
-                        if 'zs' in it2.env:
-                            break
-                    views.append((izv, it2.env.get('zs')))
-            else:
-                views = [(0, zs), (3, zs)]
-            for izv, v in views:
-                if not isinstance(v, View) or v.arr.name != 'sorted_indices' or len(v.axes) != 1 or v.axes[0][0] != 'slice':
-                    raise CannotEvaluate('zs is not a slice of sorted_indices: %r' % (v,))
-                lo, hi = v.axes[0][1], v.axes[0][2]
-                env = {}
+        def prepare():
+            it = Interp(prog, f, {}, strict=False)
+            it.index_arrays = True
+            assigned = {x.id for x in ast.walk(lp) if isinstance(x, ast.Name) and isinstance(x.ctx, ast.Store)}
+            free = {x.id for x in ast.walk(lp) if isinstance(x, ast.Name) and isinstance(x.ctx, ast.Load)} - assigned
+            arrs = {x.value.id for x in ast.walk(lp) if isinstance(x, ast.Subscript) and isinstance(x.value, ast.Name)}
+            arrs |= {y.id for x in ast.walk(lp) if isinstance(x, ast.Compare) and any(isinstance(o, (ast.In, ast.NotIn)) for o in x.ops)
+                     for c_ in x.comparators for y in ast.walk(c_) if isinstance(y, ast.Name)}
+            arrs |= {y.id for x in ast.walk(lp) if isinstance(x, ast.For) for y in ast.walk(x.iter) if isinstance(y, ast.Name)}
+            builtin = ('np', 'numpy', 'range', 'len', 'enumerate', 'zip', 'int', 'float', 'list', 'tuple', 'reversed', 'sorted')
+            for nm in sorted((free | {P, B}) - set(builtin)):
+                if nm in arrs or nm in (P, B):
+                    it.env[nm] = Arr(nm, 'param')
+                    it.k.arrays[nm] = it.env[nm]
+                else:
+                    it.env[nm] = Rat.sym(nm)
+            # statements of the enclosing blocks before the loop that set up cursors (constants) or tables of the breaks
+            blk, cur = None, lp
+            pres = []
+            while cur is not None and cur is not f.node:
+                par = pm.get(cur)
+                for fld in ('body', 'orelse'):
+                    b_ = getattr(par, fld, None)
+                    if isinstance(b_, list) and cur in b_:
+                        pres = [s_ for s_ in b_[:b_.index(cur)] if isinstance(s_, ast.Assign)] + pres
+                cur = par
+            for s_ in pres:
+                if isinstance(s_.targets[0], ast.Name) and s_.targets[0].id not in (P, B) and (
+                        isinstance(s_.value, ast.Constant) or (B in norm(s_.value) and not any(
+                            isinstance(x, ast.Call) and isinstance(prog.resolve_callable(f, m, x.func), Func) for x in ast.walk(s_.value)))):
+                    try:
+                        it.stmt(s_)
+                        if isinstance(it.env.get(s_.targets[0].id), Arr):
+                            it.k.arrays[it.env[s_.targets[0].id].name] = it.env[s_.targets[0].id]
+                    except AnalysisIncomplete:
+                        pass
+            return it
 
-                def val(x):
-                    if x is None:
+        def views_of(x):
+            """[(conds, (lo, hi))] of the slices of P that x denotes (a view, or a choice between views)"""
+            if isinstance(x, View):
+                if x.arr.name == P and len(x.axes) == 1 and x.axes[0][0] == 'slice':
+                    return [([], (x.axes[0][1], x.axes[0][2]))]
+                return None
+            if isinstance(x, Rat):
+                out = []
+                for conds, leaf in value_cases(x):
+                    a = None
+                    if isinstance(leaf, Rat) and leaf.d.is_const() and len(leaf.n.t) == 1:
+                        (mm, c_), = leaf.n.t.items()
+                        a = mm[0][0] if len(mm) == 1 else None
+                    if isinstance(a, App) and a.name == 'view' and a.args[0] == P and len(a.args[1]) == 1 and a.args[1][0][0] == 'slice':
+                        out.append((conds, (a.args[1][0][1], a.args[1][0][2])))
+                    else:
                         return None
-                    x = subst(x, lambda a: Rat.const(izv) if a == Sym('iz') else None)
-                    for a in walk_atoms(x):
-                        if isinstance(a, App) and a.name in ('read', 'cell?') and a.args[0] == 'zone_breaks':
-                            i = evaluate(a.args[1], {})
-                            env[a] = Fraction({0: 5, 2: 20, 3: 30}.get(int(i), 99))
-                    return evaluate(x, env)
-                res.append((izv, val(lo), val(hi)))
-            ok = res == [(0, None, 5), (3, 20, 30)] or res == [(0, 0, 5), (3, 20, 30)]
-            why = 'slice for zone 0 and zone 3 (breaks 5, ., 20, 30): %s' % res
+                return out
+            return None
+        try:
+            it = prepare()
+            it.stmt(lp)
+            sts = []
+            for st in it.k.stores:
+                if isinstance(st.idx, str):
+                    continue
+                for ix in st.idx:
+                    v = views_of(ix)
+                    if v:
+                        sts.append((st, v))
+            if len(sts) != 1:
+                raise CannotEvaluate('%d stores through a slice of %s' % (len(sts), P))
+            st, vws = sts[0]
+            # the row of the per-zone results that is written: value = results[J]
+            J = None
+            if isinstance(st.value, Rat) and st.value.d.is_const() and len(st.value.n.t) == 1:
+                (mm, c_), = st.value.n.t.items()
+                a = mm[0][0] if len(mm) == 1 else None
+                if isinstance(a, App) and a.name in ('read', 'cell?', 'getitem') and len(a.args) >= 2 and isinstance(a.args[-1], Rat) and a.args[0] not in (P, B):
+                    J = a.args[-1]
+            if J is None:
+                raise CannotEvaluate('the result row written through the slice is not identified: %r' % (st.value,))
+            Ls = [L for L in it.k.loops if L.kind == 'range' and Rat.sym(L.var) == J]
+            carried = {}
+            if Ls:
+                carried = {repr(phi): (nm_, Ls[0].pre.get(nm_), post) for nm_, (phi, post) in getattr(Ls[0], 'carried', {}).items()}
+
+            def nonebound(x):
+                a = None
+                if isinstance(x, Rat) and x.d.is_const() and len(x.n.t) == 1:
+                    (mm, c_), = x.n.t.items()
+                    a = mm[0][0] if len(mm) == 1 else None
+                return isinstance(a, App) and a.name == 'none'
+            res = []
+            cursor = None
+            jnames = [nm_ for nm_, v_ in it.env.items() if isinstance(v_, Rat) and v_ == J and not nm_.startswith('__')]
+
+            def rerun(izv):
+                """the slices of the store with the zone position fixed to a number (tables of the breaks are then read at
+                a known position)"""
+                it2 = prepare()
+                for nm_ in jnames:
+                    it2.env[nm_] = Rat.const(izv)
+                for b_ in lp.body:
+                    if isinstance(b_, ast.Assign) and isinstance(b_.targets[0], ast.Name) and b_.targets[0].id in jnames:
+                        continue
+                    it2.stmt(b_)
+                out = []
+                for st2 in it2.k.stores:
+                    if isinstance(st2.idx, str):
+                        continue
+                    for ix in st2.idx:
+                        v2 = views_of(ix)
+                        if v2:
+                            out.extend(v2)
+                return out
+            for izv in (0, 3):
+                got = []
+                try:
+                    use = vws
+                    for conds, (lo, hi) in vws:
+                        for b_ in (lo, hi):
+                            if isinstance(b_, Rat) and any(isinstance(a, App) and a.name in ('opaque', 'getitem') for a in walk_atoms(b_)):
+                                raise CannotEvaluate('table read at a symbolic position')
+                except CannotEvaluate:
+                    if not jnames:
+                        raise
+                    use = rerun(izv)
+                for conds, (lo, hi) in use:
+                    env = {}
+
+                    def val(x, izv=izv, env=env):
+                        if x is None or nonebound(x):
+                            return None
+                        x = subst(x, lambda a: Rat.const(izv) if Rat.atom(a) == J else None)
+                        for a in walk_atoms(x):
+                            if isinstance(a, App) and a.name in ('read', 'cell?') and a.args[0] == B:
+                                i_ = evaluate(a.args[1], {})
+                                env[a] = Fraction({0: 5, 2: 20, 3: 30}.get(int(i_), 99))
+                        return evaluate(x, env)
+                    from ..kutil import eval_cond_full
+                    cs = [subst_cond(c_, J, izv) for c_ in conds]
+                    if not all(eval_cond_full(c_, {}) for c_ in cs):
+                        continue
+                    if isinstance(lo, Rat) and repr(lo) in carried:
+                        # a cursor: starts at 0, takes the zone's break after every zone, every zone visited in order
+                        nm_, pre_, post_ = carried[repr(lo)]
+                        L = Ls[0]
+                        full = L.lo == Rat.const(0) and L.step == Rat.const(1) and not st.loops[-1:] == [] and \
+                            post_ == Rat.atom(App('read', [B, J])) and pre_ == Rat.const(0) and hi == Rat.atom(App('read', [B, J]))
+                        if not full:
+                            raise CannotEvaluate('lower bound %s is carried from zone to zone but is not the previous break (starts at %s, '
+                                                 'becomes %s, upper bound %s)' % (nm_, pre_, post_, hi))
+                        cursor = nm_
+                        got.append((0 if izv == 0 else 20, val(hi)))
+                    else:
+                        got.append((val(lo), val(hi)))
+                if len(got) != 1:
+                    raise CannotEvaluate('%d slices apply for zone %d' % (len(got), izv))
+                res.append((izv,) + got[0])
+            ok = res in ([(0, None, 5), (3, 20, 30)], [(0, 0, 5), (3, 20, 30)])
+            why = 'slice for zone 0 and zone 3 (breaks 5, ., 20, 30): %s%s' % (res, '; lower bound carried in `%s`' % cursor if cursor else '')
         except (AnalysisIncomplete, CannotEvaluate) as e:
             ok, why = None, str(e)
-    rep.add('Z-scatter', f, 'stats', 'raster output: zs = sorted_indices[breaks[iz-1]:breaks[iz]]', f.node.lineno,
+            if os.environ.get('XRSA_DEBUG'):
+                import traceback
+                traceback.print_exc()
+    rep.add('Z-scatter', f, 'stats', site, f.node.lineno,
             (ok and init) if ok is not None else None,
-            'the cells of zone iz are the permutation entries between its break and the previous one (0 for the first '
+            'the cells of zone J are the permutation entries between its break and the previous one (0 for the first '
             'zone), and every other cell stays NaN (NaN-initialised result: %s); %s' % (init, why))
+
+
+def subst_cond(c, J, izv):
+    """condition with the atom J replaced by a number"""
+    from ..sym import Rat, subst
+    from ..kai import cmp_cond
+    if c[0] == 'cmp':
+        d = subst(c[3], lambda a: Rat.const(izv) if Rat.atom(a) == J else None)
+        return cmp_cond(c[1], d, Rat.const(0))
+    if c[0] in ('and', 'or'):
+        return (c[0],) + tuple(subst_cond(x, J, izv) for x in c[1:])
+    if c[0] == 'not':
+        return ('not', subst_cond(c[1], J, izv))
+    return c
+
